@@ -446,6 +446,8 @@ pub enum How {
 pub struct LoanOutcome {
     pub ok: bool,
     pub err: String,
+    /// per vault with at least one completed loan: what the vault gained beyond the protocol + flash-loan fees due
+    pub excess: Vec<(usize, i128)>,
 }
 
 /// Runs one top-level loan transaction on vault `v` and applies the C06 / C05 / C07 monitors to it.
@@ -472,7 +474,7 @@ pub fn monitored_loan(acc: &mut Acc, wd: &mut VaultWorld, user: usize, v: usize,
                 acc.count("loan.reverted.trap");
             }
             check_unchanged(acc, wd, &before, &what, "C06");
-            LoanOutcome { ok: false, err: e }
+            LoanOutcome { ok: false, err: e, excess: vec![] }
         }
         Ok(resp) => {
             acc.count("loan.ok");
@@ -484,6 +486,7 @@ pub fn monitored_loan(acc: &mut Acc, wd: &mut VaultWorld, user: usize, v: usize,
                 acc.count("loan.ok.with-nested-loans");
             }
             let any_nested_same = facts.loans.iter().any(|l| l.nested_same_vault);
+            let mut excess: Vec<(usize, i128)> = vec![];
             for i in 0..nv {
                 let Ok(post) = wd.observe(i) else { continue };
                 let loans_i: Vec<&LoanEv> = facts.loans.iter().filter(|l| l.vault == i).collect();
@@ -528,6 +531,7 @@ pub fn monitored_loan(acc: &mut Acc, wd: &mut VaultWorld, user: usize, v: usize,
                     } else {
                         acc.slack("L1.gain-minus-fees", (lhs - need) as f64, || what.clone());
                     }
+                    excess.push((i, lhs - need));
                     acc.count("check.L3.burn-destroyed");
                     if pre[i].supply.wrapping_sub(post.supply) != sum_b {
                         acc.violation("C06", "L3/asset-supply-drop!=burn-fees", vdetail(wd, i, json!({"supply_pre": pre[i].supply.to_string(), "supply_post": post.supply.to_string(), "burn_due": sum_b.to_string(), "step": what})));
@@ -570,7 +574,7 @@ pub fn monitored_loan(acc: &mut Acc, wd: &mut VaultWorld, user: usize, v: usize,
                 }
             }
             let _ = (user_pre, any_nested_same);
-            LoanOutcome { ok: true, err: String::new() }
+            LoanOutcome { ok: true, err: String::new(), excess }
         }
     }
 }
@@ -646,6 +650,23 @@ impl Sym {
             Some(Pre::Nested { inner, .. }) => 1 + inner.depth(),
             _ => 1,
         })
+    }
+    /// nothing but (possibly nested / sibling) loans, none swallowed, every loan below this level repaid exactly as quoted
+    pub fn inner_loans_all_exact(&self) -> bool {
+        let ok = |p: &Pre| match p {
+            Pre::None => true,
+            Pre::Nested { inner, .. } => inner.rep == Rep::Exact && inner.inner_loans_all_exact(),
+            _ => false,
+        };
+        !self.pre_swallow && !self.repay_first && ok(&self.pre) && self.pre2.as_deref().map(ok).unwrap_or(true)
+    }
+    /// every loan of the script is repaid with exactly the amount quoted at the time of repayment
+    pub fn exact_chain(&self) -> bool {
+        self.rep == Rep::Exact && self.inner_loans_all_exact()
+    }
+    /// as exact_chain, but the outermost repayment is one unit below its quote
+    pub fn minus1_outer_chain(&self) -> bool {
+        self.rep == Rep::Minus1 && self.inner_loans_all_exact()
     }
     pub fn only_exact(&self) -> bool {
         self.pre == Pre::None && self.pre2.is_none() && self.rep == Rep::Exact
@@ -825,9 +846,12 @@ pub enum RouterPay {
     NestedRouterLoan,
     ForgedNextLoan,
     NoFaucet,
+    /// the payload lets another contract (the borrower) take and exactly repay its own loan from the same vault, then
+    /// earns exactly the fees of the router loan: the router asks for its quote after that inner loan has completed
+    OtherContractLoanInside,
 }
 
-pub const ROUTER_PAYLOADS: [RouterPay; 8] = [RouterPay::ExactFees, RouterPay::FeesMinus1, RouterPay::FeesPlus, RouterPay::Steal, RouterPay::StealPartAndRefill, RouterPay::NestedRouterLoan, RouterPay::ForgedNextLoan, RouterPay::NoFaucet];
+pub const ROUTER_PAYLOADS: [RouterPay; 9] = [RouterPay::OtherContractLoanInside, RouterPay::ExactFees, RouterPay::FeesMinus1, RouterPay::FeesPlus, RouterPay::Steal, RouterPay::StealPartAndRefill, RouterPay::NestedRouterLoan, RouterPay::ForgedNextLoan, RouterPay::NoFaucet];
 
 pub fn router_payload(wd: &VaultWorld, v: usize, loan: u128, kind: &RouterPay, plus_k: u128, initiator: &Addr) -> Vec<CosmosMsg> {
     let h = &wd.vaults[v];
@@ -910,6 +934,15 @@ pub fn router_payload(wd: &VaultWorld, v: usize, loan: u128, kind: &RouterPay, p
             p
         }
         RouterPay::NoFaucet => vec![],
+        RouterPay::OtherContractLoanInside => {
+            let inner_amt = (h.asset.balance(&wd.app, &h.addr).saturating_sub(loan) / 2).max(1);
+            let script = vec![Step { act: Act::Repay { vault: h.addr.to_string(), asset: h.asset.info(), loan: Uint128::new(inner_amt), mode: RepayMode::Exact }, swallow: false }];
+            let mut p: Vec<CosmosMsg> = vec![WasmMsg::Execute { contract_addr: wd.borrower.to_string(), msg: to_json_binary(&BorrowerExec::Start { vault: h.addr.to_string(), amount: Uint128::new(inner_amt), script }).unwrap(), funds: vec![] }.into()];
+            if fees > 0 {
+                p.push(give(fees));
+            }
+            p
+        }
     }
 }
 
